@@ -8,6 +8,7 @@ mod m_conc;
 mod m_diff;
 mod m_lin;
 mod m_obs;
+mod m_own;
 mod m_obs_async;
 mod m_ovec;
 
@@ -22,6 +23,7 @@ fn main() {
         "ovec" => m_ovec::run_line,
         "chain" => m_chain::run_line,
         "lin" => m_lin::run_line,
+        "own" => m_own::run_line,
         #[cfg(eyeball_verif)]
         "conc" => m_conc::run_line,
         "obs" => {
